@@ -249,32 +249,60 @@ def run(ctx, name, kind, **kw):
                         T = cv.mul(n, cand)
                         tt = T[1] == 0
                         found += 1
-                        e = ECDH(c, skA)
-                        ctx.case("refuse.invalid_remote", key="%s|subgroup|%s" % (cname, "2t" if tt else "other"))
-                        try:
-                            e.load_received_public_key_bytes(sec1.encode_point(dom, cand, "uncompressed"))
-                            ctx.violation(KF_2T if tt else "invalid_remote_key_accepted", "%s: remote point outside the order-n subgroup accepted: %r" % (cname, cand), dict(curve=cname, point=cand))
-                        except MalformedPointError:
-                            pass
+                        for enc in ("uncompressed", "compressed", "hybrid", "raw"):
+                            for how in ("bytes", "der", "pem"):
+                                if how != "bytes" and enc == "raw":
+                                    continue
+                                e = ECDH(c, skA)
+                                blob = sec1.encode_point(dom, cand, enc)
+                                ctx.case("refuse.invalid_remote", key="%s|subgroup|%s|%s|%s" % (cname, "2t" if tt else "other", enc, how))
+                                try:
+                                    if how == "bytes":
+                                        e.load_received_public_key_bytes(blob)
+                                    elif how == "der":
+                                        e.load_received_public_key_der(R.spki(tuple(c.oid), blob))
+                                    else:
+                                        e.load_received_public_key_pem(R.pem(R.spki(tuple(c.oid), blob), "PUBLIC KEY"))
+                                    ctx.violation(KF_2T if tt else "invalid_remote_key_accepted", "%s: remote point outside the order-n subgroup accepted (%s via %s): %r" % (cname, enc, how, cand),
+                                                  dict(curve=cname, point=cand, enc=enc, how=how))
+                                except MalformedPointError:
+                                    pass
     elif kind == "history":
         names = [c.name for c in lib.ALL_CURVES if c.order.bit_length() <= 256]
         for it in range(kw["count"]):
             c1 = lib.BY_NAME[rng.choice(names)]
             c2 = lib.BY_NAME[rng.choice([x for x in names if x != c1.name])]
             doms = {c1.name: lib.dom_of(c1), c2.name: lib.dom_of(c2)}
-            keys = {}
+            keyring, remring = {}, {}
             for c in (c1, c2):
-                d = rng.randrange(1, c.order)
-                keys[c.name] = (ecdsa.SigningKey.from_secret_exponent(d, c), d)
-            rem = {}
-            for c in (c1, c2):
-                d = rng.randrange(1, c.order)
-                rem[c.name] = (ecdsa.SigningKey.from_secret_exponent(d, c).verifying_key, ecdsa_ref.pubkey(doms[c.name], d))
+                keyring[c.name], remring[c.name] = [], []
+                for _k in range(3):
+                    d = rng.randrange(1, c.order)
+                    keyring[c.name].append((ecdsa.SigningKey.from_secret_exponent(d, c), d))
+                    d = rng.randrange(1, c.order)
+                    remring[c.name].append((ecdsa.SigningKey.from_secret_exponent(d, c).verifying_key, ecdsa_ref.pubkey(doms[c.name], d)))
+
+            class _Pick(dict):
+                def __init__(self, ring):
+                    self.ring = ring
+
+                def __getitem__(self, name):      # a different key of that curve on every access
+                    return self.ring[name][rng.randrange(3)]
+            keys, rem = _Pick(keyring), _Pick(remring)
             e = ECDH()
             m_curve = m_priv = m_pub = None      # model: curve name, (curve name, d), (curve name, Q)
             shape = []
-            for step in range(rng.randrange(2, 9)):
-                op = rng.choice(("set_curve", "set_curve", "load_priv", "load_priv_der", "load_pub", "load_pub_der", "load_pub_bytes", "load_priv_bytes", "generate", "secret", "secret"))
+            nsteps = rng.randrange(2, 9)
+            last_was_secret = False
+            for step in range(nsteps):
+                if last_was_secret and step + 1 < nsteps and rng.random() < 0.6:
+                    op = rng.choice(("set_curve", "load_priv", "load_priv_der", "load_pub", "load_pub_der", "load_pub_bytes", "load_priv_bytes", "generate"))
+                    force_secret_next = True
+                elif step and locals().get("force_secret_next"):
+                    op, force_secret_next = "secret", False
+                else:
+                    op = rng.choice(("set_curve", "set_curve", "load_priv", "load_priv_der", "load_pub", "load_pub_der", "load_pub_bytes", "load_priv_bytes", "generate", "secret", "secret"))
+                last_was_secret = op == "secret"
                 cn = rng.choice((c1.name, c1.name, c2.name))
                 c = lib.BY_NAME[cn]
                 shape.append(op[:6] + ("1" if cn == c1.name else "2"))
